@@ -29,7 +29,7 @@ RULE = ('Each run draws 2-3 client scripts (parse with options, re-parse, edit b
         'further worlds that differ in PYTHONHASHSEED, schedule (interleaving and nesting inside reader yield '
         'points), input form, chunking and process history (position in a group of 25 runs). Non-trivial: at '
         'least one operation was interleaved or nested; distinct by digest of the schedule trace and scripts.')
-STUBS = ['input reader (SimReader) with yield points and I/O errors', 'cooperative scheduler deciding which client runs']
+STUBS = ['input reader (SimReader) with yield points and I/O errors (one input form is a real file opened in text mode)', 'cooperative scheduler deciding which client runs']
 PROBES = ['nested-parse-in-reader', 'nested-edit-in-reader', 'aborted-then-same-source', 'same-source-live-twice',
           'edit-between-parses-of-same-source', 'skip-env-option-vs-unskipped-elsewhere', 'ioerr-abort',
           'sizing-source', 'world-first-in-pristine-interpreter']
@@ -128,7 +128,7 @@ def draw_wcfg(r, scripts, k):
                 if k == 0:
                     form, plan = 'str', 'whole'
                 else:
-                    form = simreader.FORMS[r.randrange(len(simreader.FORMS))]
+                    form = simreader.FILE_FORMS[r.randrange(len(simreader.FILE_FORMS))]
                     plan = simreader.CHUNK_PLANS[r.randrange(len(simreader.CHUNK_PLANS))]
                 if op.get('ioerr'):
                     form = ('gen', 'filelike')[r.randrange(2)] if k else 'gen'
@@ -321,6 +321,8 @@ class Run:
             soup = self.TexSoup(rd.source(), skip_envs=tuple(opts['skip_envs']), tolerance=opts['tolerance'])
         except Exception as e:  # noqa: BLE001
             return None, ['raised', type(e).__name__]
+        finally:
+            rd.close()
         return soup, ['tree'] + observe(soup)
 
     def execute(self, c, i, op):
